@@ -9,10 +9,10 @@ from sa.poly import RF, fn_atom
 from sa.selftest import Edit, Variant
 from sa.sym import ClassRef, Cond, Interp, Rec, closure_of, explore, method_of, to_rf
 
-from sa.texts import T as _T
+from sa.texts import T as _TX
 
-EXPLANATION = _T["C20"]["explanation"] + " Not decided: " + _T["C20"]["not_decided"] + "."
-ASSUMPTIONS = _T["C20"]["assumptions"]
+EXPLANATION = _TX["C20"]["explanation"] + " Not decided: " + _TX["C20"]["not_decided"] + "."
+ASSUMPTIONS = _TX["C20"]["assumptions"]
 P = "C20"
 S = RF.sym
 
